@@ -36,6 +36,11 @@ func (s *Solutions) Close() error {
 	simYield(s, "U:close-more")
 	close(s.more)
 	s.closed = true
+	// Wait for the search to end, if there is one. It may still set s.err, e.g. if the context is done.
+	if s.next != nil {
+		for range s.next {
+		}
+	}
 	return nil
 }
 
